@@ -123,10 +123,15 @@ fn from_f32_chroma<T: Pixel>(val: f32, scale: f32, offset: f32, bd: u8, full_ran
     ensures r == s_from_f32_chroma::<T>(val, scale, offset, bd, full_range),
             8 <= bd <= 16 ==> 0 <= r.code() <= pow2(bd as int) - 1 { unimplemented!() }
 // R-anycut: stands for  data.planes.iter().any(|plane| plane.iter().any(|pix| pix.to_u16().expect(..) > max_value))
-// (Plane::iter visits exactly the visible samples; it indexes with bounds checks, so it needs planes_fit to not panic)
+// (Plane::iter visits exactly the visible samples; it indexes with bounds checks, so it needs planes_fit to not panic;
+//  PlaneIter::next computes `width - 1`, so a plane with width 0 and height > 0 underflows/panics: excluded by nondegenerate)
+pub open spec fn nondegenerate<T>(d: Frame<T>) -> bool {
+    (d.planes[0].cfg.width > 0 || d.planes[0].cfg.height == 0) && (d.planes[1].cfg.width > 0 || d.planes[1].cfg.height == 0)
+    && (d.planes[2].cfg.width > 0 || d.planes[2].cfg.height == 0)
+}
 #[verifier::external_body]
 fn any_sample_exceeds<T: Pixel>(data: &Frame<T>, max_value: u16) -> (r: bool)
-    requires planes_fit(*data)
+    requires planes_fit(*data), nondegenerate(*data)
     ensures r == frame_exceeds(*data, max_value as int) { unimplemented!() }
 
 // =====================================================================================================
@@ -192,10 +197,95 @@ pub proof fn lemma_sub_lt(y: int, h: int, d: int)
 }
 '''
 
+VFRAME_SPEC = r'''
+// what v_frame's PlaneConfig::new establishes (proved on the extracted source below)
+pub open spec fn cfg_post(c: PlaneConfig, width: usize, height: usize, xdec: usize, ydec: usize, xpad: usize, ypad: usize) -> bool {
+    c.width == width && c.height == height && c.xdec == xdec && c.ydec == ydec && c.xpad == xpad && c.ypad == ypad
+    && c.yorigin == ypad && c.alloc_height == ypad + height + ypad
+    && xpad <= c.xorigin < xpad + 64 && (xpad == 0 ==> c.xorigin == 0)
+    && c.xorigin + width + xpad <= c.stride < c.xorigin + width + xpad + 64 && (c.xorigin + width + xpad == 0 ==> c.stride == 0)
+}
+pub open spec fn pow2_(s: int) -> int { vstd::arithmetic::power2::pow2(s as nat) as int }
+pub proof fn lemma_floor_bits(x: usize, n: usize)
+    requires n < 64
+    ensures (x & !(((1usize << n) - 1) as usize)) <= x, x - (x & !(((1usize << n) - 1) as usize)) < (1usize << n), (x & !(((1usize << n) - 1) as usize)) % (1usize << n) == 0, (1usize << n) >= 1
+{
+    assert((x & !(((1usize << n) - 1) as usize)) <= x) by(bit_vector) requires n < 64;
+    assert(x - (x & !(((1usize << n) - 1) as usize)) < (1usize << n)) by(bit_vector) requires n < 64;
+    assert((x & !(((1usize << n) - 1) as usize)) % (1usize << n) == 0) by(bit_vector) requires n < 64;
+    assert((1usize << n) >= 1) by(bit_vector) requires n < 64;
+}
+pub proof fn lemma_shl_pow2_usize(n: usize)
+    requires n < 64
+    ensures (1usize << n) as int == pow2_(n as int), pow2_(n as int) > 0
+{
+    vstd::arithmetic::power2::lemma_pow2_pos(n as nat);
+    vstd::bits::lemma_u64_pow2_no_overflow(n as nat);
+    vstd::bits::lemma_u64_shl_is_mul(1u64, n as u64);
+    assert((1usize << n) == ((1u64) << (n as u64)) as usize) by(bit_vector) requires n < 64;
+}
+pub proof fn lemma_aligned_small_is_zero(r: int, d: int)
+    requires 0 <= r < d, r % d == 0
+    ensures r == 0
+{ vstd::arithmetic::div_mod::lemma_small_mod(r as nat, d as nat); }
+'''
+
+def add_planeconfig(repo, g, vsrc):
+    """Extract v_frame's `Fixed` (floor_log2 / ceil_log2 / align_power_of_two for usize) and `PlaneConfig::new` and verify them."""
+    import glob
+    msrc = RustSrc(vsrc.path.replace('plane.rs', 'math.rs'))
+    im = msrc.find_impl(r'^impl Fixed for usize$')
+    body = msrc.text[im[2]:im[3]]
+    bsrc = RustSrc(msrc.path, body)
+    fl = strip_attrs_and_docs(bsrc.get(bsrc.find('fn', 'floor_log2')))
+    ce = strip_attrs_and_docs(bsrc.get(bsrc.find('fn', 'ceil_log2')))
+    al = strip_attrs_and_docs(bsrc.get(bsrc.find('fn', 'align_power_of_two')))
+    # R-deref: `self` (a `&usize`) used as an operand -> `(*self)`
+    fl = fl.replace('self & !', '(*self) & !'); ce = ce.replace('(self + ', '((*self) + ')
+    if '(*self)' not in fl or '(*self)' not in ce: raise AnchorLost('v_frame math.rs: Fixed for usize changed shape')
+    ALIGN = 'requires n < 64, self.v() + pow2_(n as int) <= usize::MAX, ensures r >= self.v(), r - self.v() < pow2_(n as int), r as int % pow2_(n as int) == 0'
+    g.add(f'''pub trait Fixed {{
+    spec fn v(&self) -> int;
+    fn floor_log2(&self, n: usize) -> (r: usize) requires n < 64, ensures r <= self.v(), self.v() - r < pow2_(n as int), r as int % pow2_(n as int) == 0;
+    fn ceil_log2(&self, n: usize) -> (r: usize) {ALIGN};
+    fn align_power_of_two(&self, n: usize) -> (r: usize) {ALIGN};
+}}
+impl Fixed for usize {{
+    open spec fn v(&self) -> int {{ *self as int }}
+''')
+    def hd(t, proof):
+        from rsx import split_fn
+        h, b = split_fn(t)
+        from rsx import name_return
+        return name_return(h) + '{\n        proof { ' + proof + ' }' + b[1:]
+    g.add(hd(fl, 'lemma_floor_bits(*self, n); lemma_shl_pow2_usize(n);'))
+    g.add(hd(ce, 'lemma_shl_pow2_usize(n); lemma_floor_bits(((*self) + (1usize << n) - 1) as usize, n);'))
+    g.add(hd(al, ''))
+    g.add('}\n')
+    im = vsrc.find_impl(r'^impl PlaneConfig$')
+    pbody = vsrc.text[im[2]:im[3]]
+    psrc = RustSrc(vsrc.path, pbody)
+    const = strip_attrs_and_docs(psrc.get(psrc.find('const', 'STRIDE_ALIGNMENT_LOG2')))
+    newfn = psrc.get(psrc.find('fn', 'new', keep_attrs=True))
+    c = C(requires=['type_size == 1 || type_size == 2', 'xpad + 64 + width + xpad + 64 <= usize::MAX', 'ypad + height + ypad <= usize::MAX'],
+          ensures=['cfg_post(r, width, height, xdec, ydec, xpad, ypad)'],
+          head='        proof { vstd::arithmetic::power2::lemma2_to64(); }',
+          inserts=[('PlaneConfig {', 'before', '''        proof {
+            vstd::arithmetic::power2::lemma2_to64();
+            if xpad == 0 { lemma_aligned_small_is_zero(xorigin as int, pow2_((6 + 1 - type_size) as int)); }
+            if xorigin + width + xpad == 0 { lemma_aligned_small_is_zero(stride as int, pow2_((6 + 1 - type_size) as int)); }
+        }''')])
+    g.under_contract.append({'fn': 'v_frame::PlaneConfig::new', 'src': 'v_frame/src/plane.rs', 'requires': c.requires, 'ensures': c.ensures})
+    g.under_contract.append({'fn': 'v_frame::math::Fixed for usize (floor_log2, ceil_log2, align_power_of_two)', 'src': 'v_frame/src/math.rs', 'requires': ['n < 64, no overflow'], 'ensures': ['aligned, >= self, < self + 2^n']})
+    g.add('impl PlaneConfig {\n    ' + const + '\n' + apply_contract(newfn, c, g.dropped) + '\n}\n')
+    g.dropped.append('v_frame: `impl Fixed for usize` (3 methods) and `PlaneConfig::new` extracted from the registry source and verified; R-deref: `self & ..` / `self + ..` on `&usize` -> `(*self)`')
+
 def contracts():
     t = {}
     t['Yuv::new'] = C(
-        requires=['config.subsampling_x < 64', 'config.subsampling_y < 64', '8 <= config.bit_depth <= 16'],
+        requires=['config.subsampling_x < 64', 'config.subsampling_y < 64', '8 <= config.bit_depth <= 16',
+                  # v_frame's PlaneIter panics on planes of width 0 and height > 0 (only reached by the 16-bit sample range check)
+                  'range_checked::<T>(config) ==> nondegenerate(data)'],
         ensures=[
             # C12: accepts exactly the well-formed frames, documented error otherwise
             'accept(data, config) <==> r is Ok',
@@ -251,6 +341,8 @@ def build(repo, stage='all'):
     vsrc, vver = vframe_src(repo)
     g.add('#[derive(Clone, Copy)]\n' + strip_attrs_and_docs(vsrc.get(vsrc.find('struct', 'PlaneConfig'))))
     g.dropped.append(f'v_frame {vver}: `struct PlaneConfig` copied mechanically from the registry source; Plane/PlaneData/Frame are stand-ins with assumed accessor contracts')
+    g.add(VFRAME_SPEC)
+    add_planeconfig(repo, g, vsrc)
     g.add(preamble.read('vframe_stubs.rs'))
     ysrc = RustSrc(os.path.join(repo, 'src/yuv.rs'))
     g.add('#[derive(Clone, Copy, PartialEq, Eq)]\n' + strip_attrs_and_docs(ysrc.get(ysrc.find('struct', 'YuvConfig'))))
